@@ -512,5 +512,180 @@ theorem lrepr_batch (s : LState I K) (L : List Route) (ids : List String) (h : L
     rw [List.filter_eq_nil_iff] at this
     simpa using this x hx
 
+/-! ### matching: the bucket union -/
+
+variable (accepts : K → Req → Bool)
+
+theorem mem_lMatchMap (m : List (K × I.M)) (hn : (akeys m).Nodup) (q : Req) (r : Route) :
+    r ∈ lMatchMap I accepts m q ↔
+      ∃ k b, alookup k m = some b ∧ accepts k q = true ∧ r ∈ I.matchReq b q := by
+  simp only [lMatchMap, List.mem_flatMap]
+  constructor
+  · rintro ⟨⟨k, b⟩, he, hr⟩
+    by_cases ha : accepts k q = true
+    · simp only [ha, if_true] at hr
+      exact ⟨k, b, alookup_of_mem hn he, ha, hr⟩
+    · simp [ha] at hr
+  · rintro ⟨k, b, hl, ha, hr⟩
+    exact ⟨(k, b), mem_of_alookup hl, by simp [ha, hr]⟩
+
+/-- The layer's specification: the route's bucket is consulted and the layers below accept. -/
+def lSat (L : List Route) (r : Route) (q : Req) : Bool :=
+  match keysOf r with
+  | none => IL.sat (L.filter (isAnyR keysOf)) r q
+  | some ks => ks.any (fun k => accepts k q && IL.sat (L.filter (inKey keysOf k)) r q)
+
+theorem mem_matchAny (s : LState I K) (L : List Route) (h : LRepr IL keysOf s L) (hU : UIds L)
+    (q : Req) (r : Route) :
+    r ∈ I.matchReq s.any q ↔
+      r ∈ L ∧ keysOf r = none ∧ IL.sat (L.filter (isAnyR keysOf)) r q = true := by
+  rw [IL.mem_match _ _ q r h.any (hU.filter _), List.mem_filter]
+  simp only [isAnyR, Option.isNone_iff_eq_none]
+  constructor
+  · rintro ⟨⟨a, b⟩, c⟩; exact ⟨a, b, c⟩
+  · rintro ⟨a, b, c⟩; exact ⟨⟨a, b⟩, c⟩
+
+theorem mem_matchMap (s : LState I K) (L : List Route) (h : LRepr IL keysOf s L) (hU : UIds L)
+    (q : Req) (r : Route) :
+    r ∈ lMatchMap I accepts s.map q ↔
+      r ∈ L ∧ ∃ k ∈ keysL keysOf r, accepts k q = true ∧
+        IL.sat (L.filter (inKey keysOf k)) r q = true := by
+  rw [mem_lMatchMap accepts s.map h.nodup]
+  constructor
+  · rintro ⟨k, b, hl, ha, hr⟩
+    rw [IL.mem_match _ _ q r (h.some k b hl) (hU.filter _), List.mem_filter] at hr
+    refine ⟨hr.1.1, k, ?_, ha, hr.2⟩
+    simpa [inKey] using hr.1.2
+  · rintro ⟨hr, k, hk, ha, hs⟩
+    have hin : inKey keysOf k r = true := by simpa [inKey] using hk
+    cases hl : alookup k s.map with
+    | none => have := h.none k hl r hr; rw [hin] at this; cases this
+    | some b =>
+      refine ⟨k, b, hl, ha, ?_⟩
+      rw [IL.mem_match _ _ q r (h.some k b hl) (hU.filter _), List.mem_filter]
+      exact ⟨⟨hr, hin⟩, hs⟩
+
+theorem mem_lMatch (s : LState I K) (L : List Route) (h : LRepr IL keysOf s L) (hU : UIds L)
+    (q : Req) (r : Route) :
+    (r ∈ I.matchReq s.any q ∨ r ∈ lMatchMap I accepts s.map q) ↔
+      r ∈ L ∧ lSat IL keysOf accepts L r q = true := by
+  rw [mem_matchAny IL keysOf s L h hU, mem_matchMap IL keysOf accepts s L h hU]
+  unfold lSat
+  cases hk : keysOf r with
+  | none => simp [keysL, hk]
+  | some ks => simp [keysL, hk]
+
+/-- At most one of the route's keys accepts a given request. -/
+def SingleAccept : Prop :=
+  ∀ r q k1 k2, k1 ∈ keysL keysOf r → k2 ∈ keysL keysOf r →
+    accepts k1 q = true → accepts k2 q = true → k1 = k2
+
+theorem nodup_lMatchMap (hs : SingleAccept keysOf accepts) (s : LState I K) (L : List Route)
+    (h : LRepr IL keysOf s L) (hU : UIds L) (q : Req) : (lMatchMap I accepts s.map q).Nodup := by
+  have key : ∀ (m : List (K × I.M)), (akeys m).Nodup → (∀ e ∈ m, alookup e.1 s.map = some e.2) →
+      (lMatchMap I accepts m q).Nodup := by
+    intro m
+    induction m with
+    | nil => intro _ _; simp [lMatchMap]
+    | cons a m ih =>
+      obtain ⟨k, b⟩ := a
+      intro hn hsub
+      simp only [akeys_cons, List.nodup_cons] at hn
+      have ih := ih hn.2 (fun e he => hsub e (List.mem_cons_of_mem _ he))
+      simp only [lMatchMap, List.flatMap_cons] at ih ⊢
+      rw [List.nodup_append]
+      refine ⟨?_, ih, ?_⟩
+      · by_cases ha : accepts k q = true
+        · simp only [ha, if_true]
+          exact IL.nodup_match _ _ q (h.some k b (hsub (k, b) (List.mem_cons_self ..))) (hU.filter _)
+        · simp [ha]
+      · intro x hx y hy hxy
+        subst hxy
+        by_cases ha : accepts k q = true
+        · simp only [ha, if_true] at hx
+          rw [IL.mem_match _ _ q x (h.some k b (hsub (k, b) (List.mem_cons_self ..))) (hU.filter _),
+            List.mem_filter] at hx
+          have hy' : x ∈ lMatchMap I accepts m q := hy
+          rw [mem_lMatchMap accepts m hn.2] at hy'
+          obtain ⟨k2, b2, hl2, ha2, hr2⟩ := hy'
+          have hmem2 := mem_of_alookup hl2
+          have hl2' := hsub (k2, b2) (List.mem_cons_of_mem _ hmem2)
+          rw [IL.mem_match _ _ q x (h.some k2 b2 hl2') (hU.filter _), List.mem_filter] at hr2
+          have e := hs x q k k2 (by simpa [inKey] using hx.1.2) (by simpa [inKey] using hr2.1.2) ha ha2
+          subst e
+          exact hn.1 (mem_akeys_of_mem hmem2)
+        · simp [ha] at hx
+  exact key s.map h.nodup (fun e he => alookup_of_mem h.nodup he)
+
+theorem nodup_lMatch (hs : SingleAccept keysOf accepts) (s : LState I K) (L : List Route)
+    (h : LRepr IL keysOf s L) (hU : UIds L) (q : Req) :
+    (I.matchReq s.any q ++ lMatchMap I accepts s.map q).Nodup := by
+  rw [List.nodup_append]
+  refine ⟨IL.nodup_match _ _ q h.any (hU.filter _), nodup_lMatchMap IL keysOf accepts hs s L h hU q, ?_⟩
+  intro x hx y hy hxy
+  subst hxy
+  rw [mem_matchAny IL keysOf s L h hU] at hx
+  rw [mem_matchMap IL keysOf accepts s L h hU] at hy
+  obtain ⟨_, k, hk, _⟩ := hy
+  simp [keysL, hx.2.1] at hk
+
+theorem lSat_congr (L L' : List Route) (r : Route) (q : Req) (h : ∀ x, x ∈ L ↔ x ∈ L') :
+    lSat IL keysOf accepts L r q = lSat IL keysOf accepts L' r q := by
+  unfold lSat
+  have hf : ∀ p : Route → Bool, ∀ x, x ∈ L.filter p ↔ x ∈ L'.filter p := by
+    intro p x; simp only [List.mem_filter, h x]
+  cases hk : keysOf r with
+  | none => simp only; exact IL.sat_congr _ _ r q (hf _)
+  | some ks =>
+    simp only
+    congr 1; funext k
+    rw [IL.sat_congr _ _ r q (hf (inKey keysOf k))]
+
+/-! ### traces: the routes listed under the accepted buckets -/
+
+theorem routesOfList_append (a b : List Trace) :
+    routesOfList (a ++ b) = routesOfList a ++ routesOfList b := by
+  induction a with
+  | nil => simp [routesOfList]
+  | cons t ts ih => simp [routesOfList, ih]
+
+theorem routesOfList_cons (t : Trace) (ts : List Trace) :
+    routesOfList (t :: ts) = t.routes ++ routesOfList ts := by simp [routesOfList]
+
+theorem routesOfList_singleton (t : Trace) : routesOfList [t] = t.routes := by
+  simp [routesOfList]
+
+@[simp] theorem routesOfList_nil : routesOfList [] = [] := by simp [routesOfList]
+
+theorem Trace.routes_mk (m e : Bool) (c : Nat) (info : TInfo) (ch : List Trace) :
+    (Trace.mk m e c info ch).routes = info.routes ++ routesOfList ch := by simp [Trace.routes]
+
+theorem mem_routesOfList_map {α : Type} (l : List α) (f : α → Trace) (r : Route) :
+    r ∈ routesOfList (l.map f) ↔ ∃ a ∈ l, r ∈ (f a).routes := by
+  induction l with
+  | nil => simp
+  | cons a l ih => simp [routesOfList_cons, ih]
+
+theorem mem_routesOfList_filterMap {α : Type} (l : List α) (f : α → Option Trace) (r : Route) :
+    r ∈ routesOfList (l.filterMap f) ↔ ∃ a ∈ l, ∃ t, f a = some t ∧ r ∈ t.routes := by
+  induction l with
+  | nil => simp
+  | cons a l ih =>
+    simp only [List.filterMap_cons]
+    cases hf : f a with
+    | none => simp [ih, hf]
+    | some t => simp [routesOfList_cons, ih, hf]
+
+/-- the traces of an accepted bucket list exactly the routes the bucket matches -/
+theorem mem_bucket_trace (s : LState I K) (L : List Route) (h : LRepr IL keysOf s L) (hU : UIds L)
+    (q : Req) (r : Route) (k : K) (b : I.M) (hl : alookup k s.map = some b) :
+    r ∈ routesOfList (I.trace b q) ↔ r ∈ I.matchReq b q :=
+  IL.mem_trace _ _ q r (h.some k b hl) (hU.filter _)
+
+theorem mem_any_trace (s : LState I K) (L : List Route) (h : LRepr IL keysOf s L) (hU : UIds L)
+    (q : Req) (r : Route) :
+    r ∈ routesOfList (I.trace s.any q) ↔ r ∈ I.matchReq s.any q :=
+  IL.mem_trace _ _ q r h.any (hU.filter _)
+
 end
 end Rio.Router
